@@ -838,3 +838,61 @@ def oracle_c05(op, kv, res, trace, flags):
 
 def nontrivial_c05(op, kv):
     return len(kv.get("h", kv.get("x", ""))) >= 8
+
+# --------------------------------------------------------------------------
+# C14: no panic in builds with debug assertions and overflow checks
+# --------------------------------------------------------------------------
+def gen_prestate(tier, rng):
+    cases = []
+    U32 = 2**32 - 1
+    starts = [(1, 0), (2, 0), (50, 0), (51, 399), (51, 400), (52, 408), (60, 100), (1000, 7992), (1000, 7993),
+              (2**29 - 1, U32), (2**29, U32), (2**29 + 1, U32), (2**29 + 1, 0), (2**30, U32), (2**31, 5), (U32 - 1, U32), (U32, U32), (U32, 0), (0, 0), (0, 77)]
+    seqs = ["E", "E,E", "U5,E", "E,U0,E", "U8,E,U8,E", "U100000,E", "E,U1,E,U1,E", "U7,U7,U7,E"]
+    for (a, b) in starts:
+        for sq in seqs:
+            cases.append(f"prestate skips={a} skipped={b} ops={sq}")
+    n = 100 if tier == "quick" else 3000
+    for _ in range(n):
+        a = rng.choice([rng.randrange(0, 200), rng.randrange(2**29 - 3, 2**29 + 3), rng.randrange(0, 2**32)])
+        b = rng.choice([rng.randrange(0, 3000), rng.randrange(0, 2**32), U32])
+        ops = ",".join(rng.choice(["E", "E", f"U{rng.randrange(0, 20)}", f"U{rng.randrange(0, 100000)}"]) for _ in range(rng.randrange(1, 12)))
+        cases.append(f"prestate skips={a} skipped={b} ops={ops}")
+    return cases
+
+def gen_c14(tier, rng):
+    quick = tier == "quick"
+    step = 5 if quick else 2
+    cases = gen_prestate(tier, rng)
+    for g in (gen_c18, gen_c19, gen_c01, gen_c02, gen_c07, gen_c06):
+        src = [c for c in g(tier, rng) if "cpu=" not in c]
+        cases += src[::step]
+    for g in (gen_c12, gen_c11, gen_tw):
+        src = [c for c in g(tier, rng) if "cpu=" not in c]
+        cases += src[:: (step * 2)]
+    cases += gen_c03(tier, rng)[:: (step * 2)]
+    cases += gen_c04(tier, rng)[:: (step * 2)]
+    # both sides of min_haystack_len for every pair family
+    for isa, B in (("sse2", 16), ("avx2", 16)):
+        for x in (b"ab", b"abcde", bytes(range(1, 34)), b"ab" * 150):
+            n = len(x)
+            for (i1, i2) in ((0, 1), (1, 0), (n - 1, 0), (0, n - 1), (min(n - 1, 255), min(n - 2, 254))):
+                if i1 == i2 or max(i1, i2) > 255:
+                    continue
+                mn = max(n, max(i1, i2) + B)
+                for L in range(max(0, mn - 3), mn + 4):
+                    h = bytes([0x71]) * L
+                    for op in ("ppfind", "ppprefilter"):
+                        cases.append(f"{op} isa={isa} x={hexs(x)} i1={i1} i2={i2} h={hexs(h)}")
+    return cases
+
+def oracle_c14(op, kv, res, trace, flags):
+    if op in ("ppfind", "ppprefilter", "pfprefilter"):
+        return oracle_pp(op, kv, res)      # the documented panic, exactly below min_haystack_len
+    if op == "prestate":
+        return f"PrefilterState from state (skips={kv['skips']}, skipped={kv['skipped']}) ops {kv['ops']}: {res} (an overflow check tripped)" if (res.startswith("Panic") or res.startswith("CRASH")) else None
+    if res.startswith("Panic") or res.startswith("CRASH"):
+        return f"{op} did not return normally: {res}"
+    return None
+
+def nontrivial_c14(op, kv):
+    return True
